@@ -130,6 +130,12 @@ func seqPart(c *vf.Ctx) {
 		l.iterMutCases()
 		l.merge(c)
 	}
+	// held results, scribbling, caller-owned arguments
+	vf.Parallel(16, workers, func(i int) {
+		l := newLocal()
+		l.heldCases(c.Rand(fmt.Sprintf("held/%d", i)), c.Pick(250, 5000))
+		l.merge(c)
+	})
 	// SetArithmetic
 	nAr := c.Pick(20000, 300000)
 	vf.Parallel(64, workers, func(i int) {
@@ -468,6 +474,24 @@ func child(c *vf.Ctx) {
 		c.Mark("racing rounds")
 		raceRounds(c, 100, c.Pick(400, 4000))
 		c.Count("race_build_mapstress_runs", 1)
+	case "reent":
+		lo, _ := strconv.Atoi(c.ChildArgs[0])
+		reentChild(c, lo)
+	case "reent-one":
+		var rc reentCase
+		_ = json.Unmarshal([]byte(c.ChildArgs[0]), &rc)
+		c.Mark("0")
+		if fp, what := runReentCase(rc, nil); fp != "" {
+			rc.What = what
+			c.Violation(fp, what, rc)
+		}
+	case "held-only":
+		l := newLocal()
+		l.heldCases(c.Rand("held/0"), 4000)
+		l.merge(c)
+	case "reent-locked":
+		i, _ := strconv.Atoi(c.ChildArgs[0])
+		runLockedCall(reentLockedCalls[i])
 	case "alias-one":
 		idx, _ := strconv.Atoi(c.ChildArgs[0])
 		c.Mark(strconv.Itoa(idx))
@@ -529,6 +553,15 @@ func replay(c *vf.Ctx) {
 			c.Violation(fp, what, r)
 		} else if !premise {
 			c.Inconclusive("codecfault replay: the element that should be faulty is not (or a healthy one is) under serix alone")
+		}
+	case "reent":
+		reentReplay(c, raw)
+	case "held":
+		var r heldCase
+		_ = json.Unmarshal(raw, &r)
+		if fp, what, log := runHeldCase(r, nil); fp != "" {
+			r.What, r.Log = what, log
+			c.Violation(fp, what, r)
 		}
 	case "itermut":
 		var r iterCase
@@ -617,11 +650,18 @@ func run(c *vf.Ctx) {
 		replay(c)
 		return
 	}
-	c.SetRule("sequential: one evaluation = one history whose last step is compared with the reference model (exhaustive part: all histories up to length 3 over the ds.Set alphabet on 3 elements – Add/Delete/AddAll/DeleteAll/Replace with every subset and the set itself, Apply with every disjoint pair of subsets, Compute with every disjoint pair of at most one element each, Clear, Clone, serix round trip – and up to length 6 (quick) / 7 (thorough) over the OrderedMap alphabet on 3 keys) or one checked step of a seeded long history (6 elements; ds.Set 40 steps with all read-only methods against every subset after each step, OrderedMap 60 steps, SetArithmetic 12 calls with thresholds 1-3) or one ForEach/ForEachReverse/Range walk whose consumer mutates the structure (all combinations of up to 5 keys, keys deleted beforehand, position and action: delete current/next/later/last/earlier/first key, set new/existing key, clear) or one serix Encode/Decode round trip of a SerializableOrderedMap / ds.Set with composite key, value or element types (slices, maps, pointers to structs, nested structs, struct and array keys; 0-6 entries; empty and pre-filled destination) compared deeply with order; " +
+	c.SetRule("sequential: one evaluation = one history whose last step is compared with the reference model (exhaustive part: all histories up to length 3 over the ds.Set alphabet on 3 elements – Add/Delete/AddAll/DeleteAll/Replace with every subset and the set itself, Apply with every disjoint pair of subsets, Compute with every disjoint pair of at most one element each, Clear, Clone, serix round trip – and up to length 6 (quick) / 7 (thorough) over the OrderedMap alphabet on 3 keys) or one checked step of a seeded long history (6 elements; ds.Set 40 steps with all read-only methods against every subset after each step, OrderedMap 60 steps, SetArithmetic 12 calls with thresholds 1-3) or one ForEach/ForEachReverse/Range walk whose consumer mutates the structure (all combinations of up to 5 keys, keys deleted beforehand, position and action: delete current/next/later/last/earlier/first key, set new/existing key, clear) or one serix Encode/Decode round trip of a SerializableOrderedMap / ds.Set with composite key, value or element types (slices, maps, pointers to structs, nested structs, struct and array keys; 0-6 entries; empty and pre-filled destination) compared deeply with order, or one iteration (ForEach/ForEachReverse/Range/Filter/Intersect/Iterator loop, Compute factory, accessors of caller-implemented mutations) whose callback calls back into the same object with a script of 1-3 operations during 1 or 3 invocations and then returns, stops or panics, followed by further use (all scripts of length <= 2 over 19 operations x up to 4 keys x every position, plus seeded longer ones), or one seeded 40-step history in which every returned slice/set/mutation/iterator/byte slice/clone is kept with a copy, re-compared after every later step and scribbled, and every argument set stays in use by the caller; " +
 		"concurrent: one evaluation = one completed method combination (all 190 pairs and 1330 triples of 19 Set methods, looped on one set) or one recorded history judged by porcupine (Apply/Compute/Replace on a whole-set model; Add/Delete/Has and Set/Get/Has/Delete partitioned per key; the reported diffs of Add/Delete/AddAll/DeleteAll/Apply/Compute/Replace decomposed per element), one aliasing call (every set-taking method with the receiver itself, its ReadOnly view or a clone as argument) or one crossed pair a.M(b) || b.N(a); " +
 		"distinct_nontrivial counts distinct (operation-class sequence, resulting order) signatures of sequential histories plus distinct completed method combinations")
 	aliasPart(c)
+	reentDone := make(chan struct{})
+	go func() { // single-threaded children: run next to the sequential child
+		defer close(reentDone)
+		reentPart(c)
+		c.Extra("phase_s_reentrancy", int(time.Since(startT).Seconds()))
+	}()
 	seqChildPart(c)
+	<-reentDone
 	c.Extra("phase_s_sequential", int(time.Since(startT).Seconds()))
 	dead := combosPart(c)
 	c.Extra("phase_s_combinations", int(time.Since(startT).Seconds()))
@@ -663,6 +703,28 @@ func run(c *vf.Ctx) {
 	c.Require("window:rounds-apply-adds-and-deletes-probe", 300)
 	c.Require("window:rounds-replace-keeps-probe", 150)
 	c.Require("window:probes-overlapping-the-atomic-call", 2000*min(runtime.NumCPU(), 4)/4)
+	c.Require("reent:cases-decided", len(reentCases(c.Seed, c.Quick())))
+	for _, t := range reentTargets {
+		c.Require("reent:"+t, 100)
+	}
+	c.Require("reent-call:Delete", 10000)
+	c.Require("reent-call:Set", 3000)
+	c.Require("reent-call:Add", 10000)
+	c.Require("reent-call:Clear", 2000)
+	c.Require("reent-call:Apply", 2000)
+	c.Require("reent-call:Compute", 2000)
+	c.Require("reent-call:Replace", 2000)
+	c.Require("reent-call:nested-iteration", 5000)
+	c.Require("reent:consumer-panics", 2000)
+	c.Require("reent:panics-recovered-by-the-caller", 2000)
+	c.Require("reent:consumer-stops", 1000)
+	c.Require("reent:further-use-batteries", 20000)
+	c.Require("held:histories", 3000)
+	c.Require("held:rechecked", 200000)
+	c.Require("held:scribbled", 30000)
+	c.Require("held:arguments-mutated-after-the-call", 5000)
+	c.Require("held:caller-buffers-overwritten-after-the-call", 5000)
+	c.Require("held:fully-effective-requests", 1000)
 	c.Require("alias_cases_decided", len(aliasCases()))
 	c.Require("crossed_pairs_decided", len(crossPairs()))
 	c.Require("overlapping_op_pairs", 10000)
